@@ -99,7 +99,7 @@ def time_indices(npts, dt, start, end, index):
         if end != -1:
             e_index = int(end / dt) + 1
         else:
-            e_index = end
+            e_index = -1  # the sentinel may arrive as a float (-1.0); a slice bound must be an int
         s_index = int(start / dt)
     else:
         s_index = start
